@@ -743,9 +743,14 @@ pub fn validate_json_for_entity(
             let field = f.1;
             let short_name = &field.short_name;
             if !field.is_system {
+                //a mutation stores the null value of a nullable field explicitly
+                let value = match json.get(short_name) {
+                    Some(value) if value.is_null() && field.nullable => None,
+                    other => other,
+                };
                 match field.field_type {
                     FieldType::Boolean => {
-                        match json.get(short_name) {
+                        match value {
                             Some(value) => {
                                 if value.as_bool().is_none() {
                                     return Err(crate::database::Error::InvalidJsonFieldValue(
@@ -764,7 +769,7 @@ pub fn validate_json_for_entity(
                         };
                     }
                     FieldType::Float => {
-                        match json.get(short_name) {
+                        match value {
                             Some(value) => {
                                 if value.as_f64().is_none() {
                                     return Err(crate::database::Error::InvalidJsonFieldValue(
@@ -783,7 +788,7 @@ pub fn validate_json_for_entity(
                         };
                     }
                     FieldType::Base64 => {
-                        match json.get(short_name) {
+                        match value {
                             Some(value) => {
                                 match value.as_str() {
                                     Some(str) => base64_decode(str.as_bytes())?,
@@ -805,7 +810,7 @@ pub fn validate_json_for_entity(
                         };
                     }
                     FieldType::Integer => {
-                        match json.get(short_name) {
+                        match value {
                             Some(value) => {
                                 if value.as_i64().is_none() {
                                     return Err(crate::database::Error::InvalidJsonFieldValue(
@@ -824,7 +829,7 @@ pub fn validate_json_for_entity(
                         };
                     }
                     FieldType::String => {
-                        match json.get(short_name) {
+                        match value {
                             Some(value) => {
                                 if value.as_str().is_none() {
                                     return Err(crate::database::Error::InvalidJsonFieldValue(
@@ -843,7 +848,7 @@ pub fn validate_json_for_entity(
                         };
                     }
                     FieldType::Json => {
-                        match json.get(short_name) {
+                        match value {
                             Some(value) => {
                                 if !value.is_object() && !value.is_array() {
                                     return Err(crate::database::Error::InvalidJsonFieldValue(
